@@ -15,11 +15,13 @@ GRANULARITY_NS = 1_000_000
 
 THRESHOLDS = [1_000_000, 1_000_001, 1_000_999, 1_125_000, 1_125_001, 2_000_000, 9_000_000, 9_000_500,
               37_462_500, 374_625_000, 1_125_000_000, 5_000_000_000, 3_600_000_000_000]
+WITNESS_F2 = "detect 9000000 1000 K 10 11 9001"
 DELTAS = [0, 1, -1, 2, -2, 998, -998, 999, -999, 1000, -1000, 1001, -1001, 1999, -1999, 2000, -2000, 5000, -5000]
 
 
 def gen(rng, n, tier):
-    ops = []
+    # witness of theorem lost_sound_strict_counterexample (F2), replayed on the real code first
+    ops = [WITNESS_F2]
 
     def one(thr, sent, k, pn, d, delta):
         la = pn + d
